@@ -48,7 +48,11 @@ Proof.
 Qed.
 
 (* The executable spec's remaining demands on a parsed point — that its printed form parses back
-   to the same point and that its binary form decodes to it — are proved for the key
-   ([key_meaning], [scan_key_complete]) and for the binary codec under the decoder's own validation
-   ([bin_roundtrip_valid]); for whole lines they are checked on the implementation by the
-   harness on every run (reparse_ok / binrt_ok in the cases), not proved. *)
+   to the same point and that its binary form decodes to it — are proved for every line that renders
+   a well-formed abstract point (LineRound.line_roundtrip, Reprint.print_parse_roundtrip,
+   Reprint.rendered_line_reprints_stable: key, field set, field iterator, timestamp) and for the
+   binary codec under the decoder's own validation ([bin_roundtrip_valid]); for the remaining
+   accepted lines (redundant escapes, exponent floats, ...) they are checked on the implementation
+   by the harness on every run (reparse_ok / binrt_ok in the cases), not proved.  For the fprint
+   cases (a point built from typed values, printed, parsed) Run.print_spec_ok of the model's own
+   parse of the model's own print holds by print_parse_roundtrip. *)
